@@ -19,20 +19,12 @@ class C09World(WalletWorld):
     def __init__(self, world):
         WalletWorld.__init__(self, world)
         self.rebuilt = 0
-        self.ambiguous_wt = set()
-        if self.network in ('litecoin', 'litecoin_testnet'):
-            # One extended-key prefix for several script families: the library cannot tell them apart on re-import and
-            # takes the first family that matches.  Affected are the witness types whose own extended key does not
-            # come back as that type; the recorded finding applies from the moment such a type is in play.
-            from bitcoinlib.keys import HDKey
-            for wt in ('legacy', 'p2sh-segwit', 'segwit'):
-                try:
-                    x = self.xprv_of_type(wt)
-                    if HDKey.from_wif(x, network=self.network).witness_type != wt:
-                        self.ambiguous_wt.add(wt)
-                except Exception:
-                    self.ambiguous_wt.add(wt)
-            world.log.ev('ambiguous_witness_types', types=sorted(self.ambiguous_wt))
+        # One extended-key prefix for several script families (litecoin Mtpv/Mtub: p2sh-segwit and segwit;
+        # litecoin_testnet ttpv/ttub: all three): on re-import the library takes the first family that matches, so the
+        # recorded finding C09-ambiguous-xkey-prefix hits the families that are not first - and applies from the moment
+        # such a witness type is in play in the run.
+        self.ambiguous_wt = {'litecoin': {'segwit'}, 'litecoin_testnet': {'p2sh-segwit', 'segwit'}}.get(self.network, set())
+        if self.ambiguous_wt:
             for wi in self.wallets:
                 self.touch_wt(wi.wt)
         for wi in self.wallets:
